@@ -327,6 +327,11 @@ def _check_definitions(shape, res, si):
                     dev = float(np.max(np.abs(d - r))) / r
                 else:
                     dev = np.inf
+                if not three and r > 0 and np.all(np.isfinite(c)) and \
+                        abs(float(np.dot(c - V[0], n))) > 1e-7 * r:
+                    _v(res, si, cls, name, "centre-off-plane",
+                       "centre %s is %.3g radii off the polygon's plane" % (
+                           c.tolist(), abs(float(np.dot(c - V[0], n))) / r))
                 if dev > ACCEPT_DEV:
                     _v(res, si, cls, name, "not-tangent-to-every-face",
                        "a face/edge is %.3g radii off tangency (best possible fit: %.3g)" % (
